@@ -2,7 +2,8 @@
 """Re-evaluate every kept seeded change with the current checks (no demo, no test-suite):
    tools/seeded_eval.py [-j N] [pattern]
 For each /verif/seeded/<seed>/patch.diff: scratch copy of /repo/openaerostruct under $TMPDIR, patch
-applied, every claimed check run with --repo; prints one line per seed and a summary; updates nothing."""
+applied, every claimed check run with --repo; prints one line per seed and a summary.  With
+--update-meta the "checks_final_machinery" entry of each seed's meta.json is rewritten from this run."""
 import concurrent.futures as cf
 import json
 import os
@@ -16,6 +17,9 @@ man = json.load(open(os.path.join(VERIF, "MANIFEST.json")))
 ids = [c["property_id"] for c in man["checks"]]
 
 
+UPDATE = False
+
+
 def one(seed):
     tmp = tempfile.mkdtemp(prefix="oas_seeded_")
     try:
@@ -23,12 +27,19 @@ def one(seed):
         subprocess.run("git init -q . && git apply --whitespace=nowarn %s" % os.path.join(VERIF, "seeded", seed, "patch.diff"), shell=True, cwd=tmp, check=True, capture_output=True)
         env = dict(os.environ, OAS_EVIDENCE_DIR=os.path.join(tmp, "ev"))
         det, err = [], []
+        lines = {}
         for pid in ids:
             r = subprocess.run([os.path.join(VERIF, "check"), pid, "--repo", tmp], capture_output=True, text=True, env=env, cwd=VERIF)
             if r.returncode == 1:
                 det.append(pid)
+                lines[pid] = [l[:260] for l in r.stdout.splitlines() if l.startswith("openaerostruct/")][:2]
             elif r.returncode != 0:
                 err.append(pid)
+        if UPDATE:
+            mp = os.path.join(VERIF, "seeded", seed, "meta.json")
+            meta = json.load(open(mp))
+            meta["checks_final_machinery"] = {"detected_by": det, "first_report_lines": lines, "analysis_errors": err}
+            json.dump(meta, open(mp, "w"), indent=1)
         return seed, det, err
     except subprocess.CalledProcessError as e:
         return seed, None, [str(e.stderr)[-200:]]
@@ -38,7 +49,11 @@ def one(seed):
 
 def main():
     j = 3
+    global UPDATE
     args = sys.argv[1:]
+    if "--update-meta" in args:
+        UPDATE = True
+        args.remove("--update-meta")
     if args[:1] == ["-j"]:
         j = int(args[1])
         args = args[2:]
